@@ -129,6 +129,11 @@ Definition run_container_acc (arg : V) : V :=
 Definition run_compactb (arg : V) : V := ok (vbool (compactb (state_of_v arg))).
 (* orderedb of a parsed file: is the file in the class the ordered-file theorems (GFile.v) speak about? *)
 Definition run_orderedb (arg : V) : V := ok (vbool (orderedb (state_of_v arg))).
+(* [state; size]: may a block of that size be added to this (sound) file — is the region it will occupy behind the table
+   and free of live blocks (Proofs/AddSafe.v: exactly then the add keeps the file sound) *)
+(* the property's soundness conditions themselves (C03), decided on a parsed file *)
+Definition run_soundb (arg : V) : V := ok (vbool (soundb (state_of_v arg))).
+Definition run_add_safeb (arg : V) : V := ok (vbool (add_safeb (state_of_v (vnth 0 arg)) (vint (vnth 1 arg)))).
 
 (* file-system operations (C17): fs = [[path; bytes] ...]
    [fs; 1; path; now] new    [fs; 2; src; dst] copy    [fs; 3; path] open *)
